@@ -348,17 +348,28 @@ end Spec
 /-! ### dialling a host with TLS: `connConfig` (setupTLSConfig) → `defaultHostDialer.DialHost` → `WrapTLS`
     (tlsConfigForAddr on `HostnameAndPort()`, `tls.Client(...).HandshakeContext`) → `Conn.init` -/
 
+/-- who signed a node's certificate: the CA in the file CaPath names, the CA in the caller's own RootCAs pool, or
+    a CA the client was never given -/
+inductive Signer | fileCA | poolCA | rogue
+  deriving DecidableEq, Repr
+
 /-- what matters of the certificate a node presents -/
 structure ServerCert where
   sans : List (List UInt8)      -- subject alternative names (DNS names, IP literals)
-  byTrustedCA : Bool            -- chains to the CA the scenario's CaPath / RootCAs name
+  signer : Signer
   deriving DecidableEq, Repr
 
+/-- content of the derived config's RootCAs: the caller's pool (Clone keeps it) plus the CA file appended by
+    setupTLSConfig; without either RootCAs is nil = the system roots, which contain none of the scenario CAs -/
+def rootsTrust (o : SslOpts) : Signer → Bool
+  | .fileCA => o.ca = .valid
+  | .poolCA => (o.cfg.map (·.hasRootCAs)).getD false
+  | .rogue => false
+
 /-- crypto/tls client-side verification (Go library, assumed): nothing is checked with InsecureSkipVerify; otherwise
-    the chain must lead to RootCAs and the certificate must be valid for ServerName.  `rootsHaveCA`: the scenarios'
-    RootCAs, when present, consist of the scenario's CA (system roots never contain it). -/
-def tlsAccepts (insecure rootsHaveCA : Bool) (serverName : List UInt8) (cert : ServerCert) : Bool :=
-  insecure || (rootsHaveCA && cert.byTrustedCA && cert.sans.contains serverName)
+    the chain must lead to RootCAs and the certificate must be valid for ServerName. -/
+def tlsAccepts (insecure trusted : Bool) (serverName : List UInt8) (cert : ServerCert) : Bool :=
+  insecure || (trusted && cert.sans.contains serverName)
 
 structure TlsDial where
   serverName : List UInt8       -- ServerName of the config handed to crypto/tls for this dial
@@ -373,7 +384,7 @@ def dialTLS (o : SslOpts) (hostname port : List UInt8) (cert : ServerCert) (auth
   | .error e => .error e
   | .ok c =>
     let sn := (tlsConfigForAddr c.insecure c.serverName (joinHostPort hostname port)).1
-    if tlsAccepts c.insecure c.hasRootCAs sn cert then .ok { serverName := sn, accepted := true, trace := handshake auth fs }
+    if tlsAccepts c.insecure (rootsTrust o cert.signer) sn cert then .ok { serverName := sn, accepted := true, trace := handshake auth fs }
     else .ok { serverName := sn, accepted := false, trace := .stop .errTlsVerify }
 
 namespace Spec
@@ -387,12 +398,11 @@ def expectedName (o : SslOpts) (hostname : List UInt8) : List UInt8 :=
   if explicit ≠ [] then explicit
   else if hostname.contains colon then [91] ++ hostname ++ [93] else hostname
 
-/-- the client has been given the CA: through CaPath or through its own RootCAs -/
-def hasCA (o : SslOpts) : Bool := o.ca = .valid || (o.cfg.map (·.hasRootCAs)).getD false
-
-/-- may anything (in particular credentials) be sent to a node presenting `cert`? -/
+/-- may anything (in particular credentials) be sent to a node presenting `cert`?  Only if the documented table says
+    "do not verify", or the client was given the CA that signed the certificate (CaPath / own RootCAs) and the
+    certificate is valid for the expected name. -/
 def mayProceed (o : SslOpts) (hostname : List UInt8) (cert : ServerCert) : Bool :=
-  !mustVerify o || (hasCA o && cert.byTrustedCA && cert.sans.contains (expectedName o hostname))
+  !mustVerify o || (rootsTrust o cert.signer && cert.sans.contains (expectedName o hostname))
 end Spec
 
 end TlsAuth
